@@ -84,6 +84,19 @@ def make_pool(darsia, rng):
         P["thr_lo"] = np.array([0.0, 0.1])
         P["thr_hi"] = np.array([0.9, 0.95])
         P["thr_lo_list"] = [0.0, 0.1]
+        # caller-owned containers that are handed to the library as they are
+        P["Ma"] = darsia.ScalarImage(np.array(rs.randint(1, 5, size=(H, W)), dtype=float), dimensions=[0.5 * H, 0.25 * W])
+        mb = np.array(rs.randint(1, 5, size=(H, W)), dtype=float)
+        P["Mb"] = darsia.ScalarImage(mb * P["Ma"].img.sum() / mb.sum(), dimensions=[0.5 * H, 0.25 * W])
+        P["optsW"] = {"num_iter": 3, "linear_solver": "amg", "formulation": "pressure", "linear_solver_options": {"atol": 1e-10, "rtol": 1e-10, "maxiter": 50},
+                      "amg_options": {"max_coarse": 4}}
+        P["imglist"] = [P["M1"], P["M2"], P["Sone"]]
+        P["timelist"] = [0.0, 1.5, 4.0]
+        P["originlist"] = [3.0, 7.0]
+        P["cfgdrift"] = {"active": False, "padding": 0.1, "roi": np.array([[0, 0], [H - 1, W - 1]])}
+        P["U8a"] = darsia.ScalarImage(rs.randint(0, 100, size=(H, W)).astype(np.uint8), dimensions=[0.5 * H, 0.25 * W])
+        P["U8b"] = darsia.ScalarImage(rs.randint(0, 100, size=(H, W)).astype(np.uint8), dimensions=[0.5 * H, 0.25 * W])
+        P["F32"] = darsia.ScalarImage(rs.rand(H, W).astype(np.float32), dimensions=[0.5 * H, 0.25 * W])
     P["_shape"] = (H, W)
     return P
 
@@ -178,6 +191,19 @@ def registry(darsia):
     add("emd", lambda P, r: darsia.EMD()(P["M1"], P["M2"]))
     add("wasserstein_newton", lambda P, r: darsia.wasserstein_distance(P["M1"], P["M2"], method="newton", options={"num_iter": 3}))
     add("wasserstein_bregman", lambda P, r: darsia.wasserstein_distance(P["M1"], P["M2"], method="bregman", options={"num_iter": 3}))
+    add("wasserstein_caller_options", lambda P, r: darsia.wasserstein_distance(P["Ma"], P["Mb"], method="newton", options=P["optsW"]))
+    add("wasserstein_caller_options_bregman", lambda P, r: darsia.wasserstein_distance(P["Ma"], P["Mb"], method="bregman", options=P["optsW"]))
+    add("emd_distinct", lambda P, r: darsia.EMD()(P["Ma"], P["Mb"]))
+    add("superpose_caller_list", lambda P, r: darsia.superpose(P["imglist"]))
+    add("stack_caller_list", lambda P, r: darsia.stack(P["imglist"]))
+    add("ctor_time_list", lambda P, r: darsia.Image(P["S"].img.copy(), space_dim=2, dimensions=P["dimsB"], scalar=True, series=True, time=P["timelist"]))
+    add("ctor_origin_list", lambda P, r: darsia.Image(P["arrA"].copy(), space_dim=2, dimensions=P["dimsB"], origin=P["originlist"], scalar=True))
+    add("drift_caller_config", lambda P, r: darsia.DriftCorrection(P["Cf"].img, config=P["cfgdrift"])(P["Cf"]))
+    # arithmetic on the other pixel types
+    add("add_uint8", lambda P, r: P["U8a"] + P["U8b"])
+    add("sub_float32", lambda P, r: P["F32"] - P["F32"])
+    add("mul_float32", lambda P, r: P["F32"] * 2.5)
+    add("lt_uint8", lambda P, r: P["U8a"] < P["U8b"])
     # utilities
     add("bounding_box", lambda P, r: darsia.bounding_box(np.array([[0, 1], [2, 2]])))
     add("random_patches", lambda P, r: darsia.random_patches(P["mask"], 1, 3))
